@@ -1,9 +1,9 @@
 """C19 — the language server's answers depend only on current document contents
 (lsp/nls/src/{world,files,analysis,server}.rs, core/src/cache.rs SourceCache)."""
-import glob
 import json
 import os
 import shutil
+import tempfile
 import time
 from vlib import core
 
@@ -259,6 +259,21 @@ def only_formerly_imported(case, oracle):
 
 # --------------------------------------------------------------------------- running and comparing
 
+_SCRATCH = []
+
+
+def scratch_dir():
+    """Documents of this run live under one fresh directory in /tmp, removed at the end."""
+    if not _SCRATCH:
+        _SCRATCH.append(tempfile.mkdtemp(prefix="verif-c19-run-"))
+    return _SCRATCH[0]
+
+
+def cleanup_scratch():
+    while _SCRATCH:
+        shutil.rmtree(_SCRATCH.pop(), ignore_errors=True)
+
+
 PROBE_PURGE = "4 0=100//o O0=1/1/o,O1=2//o,X0,C1=3//t"
 PROBE_SELF = "4 - O0=1/0/o"
 
@@ -267,7 +282,7 @@ def detect_cfg(ck, exe_nls, exe_model):
     """Which of the two proposed patches does the code under test contain?  Decided by replaying
     the two minimal witnesses on the real server and seeing which configuration of the model
     reproduces them (the model is proved for every configuration)."""
-    rc, out, err = core.run_lines(core.harness_bin("c19"), [exe_nls, "--no-oracle"], [PROBE_PURGE, PROBE_SELF], timeout=300)
+    rc, out, err = core.run_lines(core.harness_bin("c19"), [exe_nls, "--no-oracle", "--scratch", scratch_dir()], [PROBE_PURGE, PROBE_SELF], timeout=300)
     flags = ["0", "0"]
     try:
         real = [json.loads(x) for x in out]
@@ -296,7 +311,7 @@ def detect_cfg(ck, exe_nls, exe_model):
 def run_cases(ck, cases, exe_nls, exe_model, cfg=None):
     cfg = cfg or os.environ.get("VERIF_C19_FORCE_CFG") or detect_cfg(ck, exe_nls, exe_model)
     hooks = nls_has_hooks()
-    rc1, impl_out, e1 = core.run_sharded(core.harness_bin("c19"), [exe_nls] + (["--state"] if hooks else []), cases, timeout=3400)
+    rc1, impl_out, e1 = core.run_sharded(core.harness_bin("c19"), [exe_nls, "--scratch", scratch_dir()] + (["--state"] if hooks else []), cases, timeout=3400)
     rc2, model_out, e2 = core.run_sharded(exe_model, [cfg, "state"], cases)
     rc3, patched_out, e3 = core.run_sharded(exe_model, ["11"], cases)
     if rc1 or rc2 or rc3:
@@ -407,8 +422,7 @@ def run(ck):
             ck.sample({"history": c[:300], "impl_trace": json.loads(a).get("trace", "")[:300]})
         except ValueError:
             pass
-    for d in glob.glob("/tmp/verif-c19-*"):
-        shutil.rmtree(d, ignore_errors=True)
+    cleanup_scratch()
     ck.coverage["traces_validated_against_impl"] = len(cases)
     ck.coverage["corpus_cases"] = ncorp
     ck.coverage["rule"] = ("history = seeded random client-conforming didOpen/didChange/didClose sequence over %d documents "
@@ -430,5 +444,4 @@ def replay(ck, path):
     exe_model = ck.model("C19.v")
     if ok and exe_model and exe_nls and "case" in obj:
         run_cases(ck, [obj["case"]], exe_nls, exe_model)
-        for d in glob.glob("/tmp/verif-c19-*"):
-            shutil.rmtree(d, ignore_errors=True)
+    cleanup_scratch()
